@@ -38,12 +38,17 @@ ASSUMPTIONS = [
 STATIC_SAMPLES = [["add Ea1", "add Ea2 fail", "remove pos1"]]
 
 
+class UserEntry(Entry):
+    """A user-defined subclass: it is an Entry for every clause of the property."""
+
+
 def universe(tier):
     u = {
         "Ea1": lambda: Entry("article", "a", [Field("t", "1")]),
         "Ea2": lambda: Entry("book", "a", [Field("u", "2")]),
         "Ea1t": lambda: Entry("article", "a", [Field("t", "1")]),  # structurally equal twin of Ea1
-        "Eb": lambda: Entry("article", "b", []),
+        "Eb": lambda: UserEntry("article", "b", []),
+        "E0": lambda: Entry("misc", "", [Field("n", "0")]),  # the empty key is a key like any other
         "Sa": lambda: String("a", "x"),
         "Sa2": lambda: String("a", "y"),
     }
@@ -75,7 +80,7 @@ class Model:
         self.strs = {}
 
     def _admit(self, b):
-        if type(b) is Entry or isinstance(b, Entry):
+        if isinstance(b, Entry):
             d = self.ents
         elif isinstance(b, String):
             d = self.strs
@@ -312,7 +317,7 @@ class World:
                         bad = ("duplicate_wrapper_content", f"position {i}: wrapper does not expose key / first block / duplicate")
                         break
         if bad is None:
-            ents = [b for b in blocks if type(b) is Entry]
+            ents = [b for b in blocks if isinstance(b, Entry)]
             le = lib.entries
             if len(le) != len(ents) or any(x is not y for x, y in zip(le, ents)):
                 bad = ("entries_are_the_entry_blocks_in_order", repr([getattr(e, "key", None) for e in le]))
@@ -326,8 +331,8 @@ class World:
                 held = {id(b) for b in blocks}
                 if any(id(v) not in held for v in ed.values()) or any(id(v) not in held for v in sd.values()):
                     bad = ("dict_values_are_held_objects", "a dict value is not an element of blocks")
-                ekeys = [b.key for b in blocks if type(b) is Entry]
-                skeys = [b.key for b in blocks if type(b) is String]
+                ekeys = [b.key for b in blocks if isinstance(b, Entry)]
+                skeys = [b.key for b in blocks if isinstance(b, String)]
                 if len(ekeys) != len(set(ekeys)) or len(skeys) != len(set(skeys)):
                     bad = ("no_two_held_share_a_key", f"entries {ekeys} strings {skeys}")
                 elif len(ed) != len(ekeys) or len(sd) != len(skeys):
